@@ -926,6 +926,23 @@ func (f *Frame) evalCall(e *spec.Call, st, old *State) TV {
 // callPure runs a Go function symbolically on a clone of the state and returns its (merged) result.
 func (f *Frame) callPure(fn *ssa.Function, clo *Closure, args []Value, st *State) TV {
 	x := f.x
+	if lm := x.libModel(fn); lm != nil && clo == nil {
+		x.curCallee = fn
+		v, _ := lm.apply(f, st.clone(), nil, args)
+		rt := fn.Signature.Results()
+		if rt.Len() == 1 {
+			return TV{v, rt.At(0).Type()}
+		}
+		return TV{v, rt}
+	}
+	if sp := x.specFor(fn); sp != nil && sp.Flags["pure"] && !sp.Flags["inline"] && clo == nil {
+		rs := x.pureResults(st, fn, args)
+		rt := fn.Signature.Results()
+		if rt.Len() == 1 {
+			return TV{rs[0], rt.At(0).Type()}
+		}
+		return TV{&Struct{Fields: rs}, rt}
+	}
 	s2 := st.clone()
 	x.NoObl++
 	defer func() { x.NoObl-- }()
@@ -962,6 +979,7 @@ func (f *Frame) evalMethodCall(sel *spec.Sel, argsE []spec.Expr, st, old *State)
 									args = append(args, av.V)
 								}
 								if m := x.libModel(fn); m != nil {
+									x.curCallee = fn
 									v, _ := m.apply(f, st.clone(), nil, args)
 									rt := fn.Signature.Results()
 									if rt.Len() == 1 {
@@ -1018,6 +1036,7 @@ func (f *Frame) evalMethodCall(sel *spec.Sel, argsE []spec.Expr, st, old *State)
 				args = append(args, av.V)
 			}
 			if lm := x.libModel(fn); lm != nil {
+				x.curCallee = fn
 				v, _ := lm.apply(f, st.clone(), nil, args)
 				rt := fn.Signature.Results()
 				if rt.Len() == 1 {
